@@ -13,7 +13,8 @@ RULE = ('tree units: every sequence of short-read decisions (stateless re-execut
         '_body_read; random units: bodies up to 300 kB x CL below/equal/above x buffer sizes x fragmentation '
         'policies through Request.body and through Ombott.__call__. Non-trivial = at least one read was '
         'answered short or CL != len(data); distinct = distinct (len, CL, buffer, read-size sequence).')
-REQUIRED = ['multipart_content_type_on_arbitrary_bytes', 'short_read_cases', 'spilled_to_file', 'in_memory', 'early_eof_cases', 'longer_stream_cases',
+PYOPT = {'quick': 1, 'thorough': 1}     # one unit of every kind is also served by an interpreter started with -O (assert statements compiled out)
+REQUIRED = ['units_run_under_python_-O', 'multipart_content_type_on_arbitrary_bytes', 'short_read_cases', 'spilled_to_file', 'in_memory', 'early_eof_cases', 'longer_stream_cases',
             'wsgi_cases', 'rewind_checked']
 EXHAUSTIVE = {'quick': False, 'thorough': False,
               'quick_note': 'tree units are exhaustive for body<=11, CL<=13, buffer<=5',
